@@ -9,8 +9,9 @@ TSlotBytes(l) == 0
 Obs == ndJsonDeserialize(IOEnv.OBS)
 Grp(k) == [g |-> TRUE, key |-> k]
 Case(x) == [g |-> FALSE, v |-> x]
-InitO == c \in {Grp(i) : i \in 0..((Len(Obs) - 1) \div 50)}
-NextO == c.g /\ c' \in {Case(i) : i \in {j \in 1..Len(Obs) : (j - 1) \div 50 = c.key}}
+\* the variables of Hnsw.tla are not used here: they stay at their initial values
+InitO == Init /\ c \in {Grp(i) : i \in 0..((Len(Obs) - 1) \div 50)}
+NextO == c.g /\ c' \in {Case(i) : i \in {j \in 1..Len(Obs) : (j - 1) \div 50 = c.key}} /\ UNCHANGED <<abstract, ghost, hist>>
 Judge(o) == LET L == Range(o.live)
                 V == [i \in L |-> o.vecs[CHOOSE j \in 1..Len(o.live) : o.live[j] = i]]
             IN  FailedClausesIn(L, V, o.nodes, o.R, o.q, o.k, o.ef)
